@@ -1,0 +1,25 @@
+//go:build verif
+// +build verif
+
+// Contracts for the deductive verifier in /verif (govc). Comment-only: no executable code.
+package dispatcher
+
+//@ func (*dispatcher).responseError props C04, C05
+//@   trusted "ghost definition: responded/lastcode/lastreason record the calls of this function"
+//@   modifies responded, lastcode, lastreason
+//@   ensures responded == old(responded) + 1 && lastcode == errCode(err) && lastreason == reason
+
+//@ func (*UpgradeAwareHandler).ServeHTTP props C04, C05
+//@   trusted "ghost definition: forwarded counts the requests handed to the proxy handler"
+//@   modifies forwarded, fwdlocation, fwdtransport, *
+//@   ensures forwarded == old(forwarded) + 1 && fwdlocation == old(h.Location) && fwdtransport == old(h.Transport)
+
+//@ func (*dispatcher).ServeHTTP props C04, C05
+//@   requires [wf] req != nil && req.URL != nil
+//@   modifies *
+//@   ensures [exactly_one] responded + forwarded == old(responded) + old(forwarded) + 1
+//@   ensures [held_balanced] forall g ref :: {held[g]} held[g] == old(held[g])
+//@   ensures [rate_limited_429] acqfailed > old(acqfailed) ==> responded == old(responded) + 1 && forwarded == old(forwarded) && lastcode == 429
+//@   ensures [no_endpoint_503] popfailed > old(popfailed) ==> responded == old(responded) + 1 && forwarded == old(forwarded) && lastcode == 503
+//@   ensures [not_proxied_503] !defined(endpointPicker) ==> (responded > old(responded) && lastreason == "cluster_not_being_proxied" ==> lastcode == 503 && forwarded == old(forwarded))
+//@   ensures [no_match_not_forwarded] defined(endpointPicker) ==> (endpointPicker == nil ==> forwarded == old(forwarded) && responded == old(responded) + 1 && acqfailed == old(acqfailed) && popfailed == old(popfailed) && forall g ref :: {held[g]} held[g] == old(held[g]))
